@@ -433,6 +433,26 @@ def canon_iter(it, opts=None):
     return base
 
 
+
+def shift_binders(t, base, by):
+    """add `by` to the depth of every comprehension / lambda binder of depth >= base inside t"""
+    def rec(x):
+        if type(x) is not tuple or not x:
+            return x
+        tag = x[0]
+        if tag in ('bv', 'p') and type(x[1]) is int and x[1] >= base:
+            return (tag, x[1] + by) + tuple(x[2:])
+        if tag == 'comp' and type(x[2]) is int and x[2] >= base:
+            return ('comp', x[1], x[2] + by) + tuple(rec(y) for y in x[3:])
+        if tag == 'lam' and type(x[2]) is int and x[2] >= base:
+            return ('lam', x[1], x[2] + by) + tuple(rec(y) for y in x[3:])
+        return tuple(rec(y) if type(y) is tuple else y for y in x)
+    return rec(t)
+
+
+def mentions(t, pred):
+    return any(pred(x) for x in walk(t))
+
 def force_num(t, opts=None):
     """t is known not to be a Python sequence: rebuild `+` inside it as the commutative sum"""
     if t[0] == '+':
@@ -442,6 +462,9 @@ def force_num(t, opts=None):
             x = force_num(x, opts)
             acc = x if acc is None else mk_bin('+', acc, x, o2)
         return acc
+    if t[0] == '-' and len(t[1]) == 2:
+        o2 = Opts(plus_commutes=True, ordered=False) if opts is None else Opts(plus_commutes=True, ordered=opts.ordered)
+        return mk_bin('+', force_num(t[1][0], opts), mk_neg(force_num(t[1][1], opts), o2), o2)
     if t[0] == 'ite':
         return ('ite', t[1], force_num(t[2], opts), force_num(t[3], opts))
     return t
@@ -566,6 +589,12 @@ def _int_cmp(op, a, b):
     q = _int_norm(mk_bin('+', C(1), mk_neg(d, _LIN), _LIN))
     if is_c(p) or is_c(q):
         return p
+
+    def has_const(c):
+        return any(x[0] == '+' and any(is_int(y) for y in x[1]) for x in (c[2], c[3])) or is_int(c[2]) or is_int(c[3])
+    hp, hq = has_const(p), has_const(q)
+    if hp != hq:
+        return p if not hp else ('not', q)
     return p if skey(p) <= skey(q) else ('not', q)
 
 
@@ -1698,6 +1727,12 @@ class PE:
         A, B = tuple(A), tuple(B)
         if A == B:
             return list(A)
+        tail = []
+        while A and B and A[-1] == B[-1] and A[-1][0] in ('do', 'exit', 'assert', 'yield', 'yieldfrom', 'break', 'continue'):
+            tail.insert(0, A[-1])        # both branches end with the same effect (same state snapshot): it follows the `if`
+            A, B = A[:-1], B[:-1]
+        if tail:
+            return (self._mk_if(c, A, B) if (A or B) else []) + tail
         for (outer_then, inner, other) in ((True, A, B), (False, B, A)):
             if len(inner) == 1 and inner[0][0] == 'if':
                 c2, X, Y = inner[0][1], tuple(inner[0][2]), tuple(inner[0][3])
@@ -1739,7 +1774,12 @@ class PE:
                         A = self.tidy(list(A) + rest)
                     out.extend(self._mk_if(e[1], A, B))
                     return out
-                out.extend(self._mk_if(e[1], A, B))
+                new = self._mk_if(e[1], A, B)
+                if rest and new and new[-1][0] == 'if' and new[-1] != ('if', e[1], tuple(A), tuple(B)) \
+                        and self._terminated(new[-1][2]) != self._terminated(new[-1][3]):
+                    # merging changed the shape: one branch of the new `if` leaves, the rest belongs to the other
+                    return out + new[:-1] + self.tidy([new[-1]] + rest)
+                out.extend(new)
                 if ta and tb:
                     return out
             elif e[0] in ('for', 'while'):
@@ -1953,6 +1993,98 @@ class PE:
                 nexts = tuple(env2.get(v, ('unbound', '?')) for v in carried)
                 for v in ivs:
                     env[v] = iv_after[v]
+        # ---- accumulators of a pure loop are comprehensions:  l=[]; for x in S: l.append(e)  ==  [e for x in S]
+        if kind == 'for' and it[0] == 'range' and it[1] == C(0) and it[3] == C(1) and not body_eff and not s.orelse \
+                and not self.has_flow_escape(s.body) and carried:
+            its = itsym()
+            d = self.lam_depth + 1
+            bv = ('bv', d, 0, 'num')
+            folds = {}
+
+            def loopsym(x):
+                return x[0] in ('phi', 'after', 'afterlocal', 'afterit') and len(x) > 1 and x[1] == L
+
+            for rank, v in enumerate(carried):
+                phi = ('phi', L, rank) + ksuf(inits[rank])
+                nx = nexts[rank]
+                cond = None
+                if nx[0] == 'ite' and (nx[3] == phi or nx[2] == phi):
+                    cond = nx[1] if nx[3] == phi else mk_not(nx[1])
+                    nx = nx[2] if nx[3] == phi else nx[3]
+                    if mentions(cond, loopsym):
+                        continue
+                e, how = None, None
+                if nx[0] == 'mut' and nx[1] == 'append' and nx[2] == phi and len(nx[3]) == 1:
+                    e, how = nx[3][0], 'elem'
+                elif nx[0] == 'mut' and nx[1] == 'extend' and nx[2] == phi and len(nx[3]) == 1:
+                    e, how = nx[3][0], 'chain'
+                elif nx[0] == '+' and len(nx[1]) == 2 and nx[1][0] == phi and kind_of(inits[rank]) == 'seq':
+                    x = nx[1][1]
+                    if inits[rank][0] in ('list',) or (inits[rank][0] == 'c' and False):
+                        if x[0] == 'list' and len(x[1]) == 1:
+                            e, how = x[1][0], 'elem'
+                        elif kind_of(x) == 'seq' or x[0] in ('call', 'idx', 'attr'):
+                            e, how = x, 'chain'
+                    elif inits[rank][0] == 'c' and isinstance(inits[rank][1], (bytes, str)):
+                        e, how = x, 'join'
+                if e is None or mentions(e, loopsym):
+                    continue
+                folds[v] = (rank, e, how, cond)
+            if folds:
+                keep = [v for v in carried if v not in folds]
+                # the other carried variables must not look at an accumulator
+                facc = {('phi', L, folds[v][0]) + ksuf(inits[folds[v][0]]) for v in folds}
+                if not any(mentions(nexts[carried.index(v)], lambda x: x in facc) for v in keep):
+                    for v, (rank, e, how, cond) in folds.items():
+                        sub = {its: bv}
+                        e2 = substitute(shift_binders(e, d, 1), sub, self.opts)
+                        conds = () if cond is None else (substitute(shift_binders(cond, d, 1), sub, self.opts),)
+                        gens = [(it, conds)]
+                        if how == 'chain':
+                            ci = canon_iter(e2, self.opts)
+                            bv1 = ('bv', d, 1, 'num')
+                            if ci is not None:
+                                gens.append((('range', C(0), ci[0], C(1)), ()))
+                                elt = ci[1](bv1)
+                            else:
+                                gens.append((e2, ()))
+                                elt = ('bv', d, 1)
+                        else:
+                            elt = e2
+                        comp = ('comp', 'list', d, elt, tuple(gens))
+                        init = inits[rank]
+                        if how == 'join':
+                            empty = C(b'') if isinstance(init[1], bytes) else C('')
+                            joined = ('call', ('attr', empty, 'join'), (comp,), ())
+                            env[v] = joined if init == empty else mk_bin('+', init, joined, self.opts)
+                        else:
+                            env[v] = comp if init == ('list', ()) else mk_bin('+', init, comp, self.opts)
+                    folded_after = {v: env[v] for v in folds}
+                    # re-rank the remaining carried variables
+                    ren = {}
+                    for newrank, v in enumerate(keep):
+                        old = carried.index(v)
+                        for tg in ('phi', 'after'):
+                            ren[(tg, L, old) + ksuf(inits[old])] = (tg, L, newrank) + ksuf(inits[old])
+                    new_nexts = tuple(substitute(nexts[carried.index(v)], ren, self.opts) for v in keep)
+                    new_inits = tuple(inits[carried.index(v)] for v in keep)
+                    carried, inits, nexts = keep, new_inits, new_nexts
+                    if not carried:
+                        # nothing is left of the loop: no effect is emitted; locals assigned in the body keep their afterlocal form
+                        for v in assigned:
+                            if v not in folded_after and v in env2 and v not in tn and v in env:
+                                env[v] = ('afterlocal', L, env2[v])
+                        for v, t_ in folded_after.items():
+                            env[v] = t_
+                        self.nloops -= 1 if self.nloops == L else 0
+                        return
+                    pending_folded = folded_after
+                else:
+                    pending_folded = {}
+            else:
+                pending_folded = {}
+        else:
+            pending_folded = {}
         else_eff = []
         # after the loop
         for rank, v in enumerate(carried):
@@ -1964,6 +2096,8 @@ class PE:
             for v in tn:
                 if v in env2:
                     env[v] = ('afterit', L, v if False else 0)
+        for v, t_ in pending_folded.items():
+            env[v] = t_
         if s.orelse:
             self.exec_block(s.orelse, env, else_eff)
         if kind == 'for':
